@@ -85,7 +85,7 @@ def run_tree(rng):
     def walk(depth, cur_logger, cur_trace):
         name = rng.choice(NAMES)
         own_logger = rng.choice([None, f"L{next(counter)}"])
-        own_trace = rng.choice([None, f"T{next(counter)}"])
+        own_trace = rng.choice([None, f"T{next(counter)}", f"req%20{next(counter)}", f"%s{next(counter)}%"])
         lg = logger(own_logger) if own_logger else None
         with ctx.scope(name, logger=lg, trace_id=own_trace):
             from haiway.context.metrics import MetricsContext
